@@ -150,7 +150,11 @@ func (g *gen) mutate(v reflect.Value, depth int) {
 		// keys in a deterministic order: collect, then sort by dump
 		keys := sortedKeys(v)
 		for _, k := range keys {
-			switch g.r.Intn(5) {
+			c := g.r.Intn(5)
+			if k.IsZero() && g.r.Intn(2) == 0 {
+				c = 0 // the zero key: same key, zero value, more often (both omitted on the wire)
+			}
+			switch c {
 			case 0: // same key, zero value
 				v.SetMapIndex(k, reflect.Zero(t.Elem()))
 			case 1: // same key, new value
